@@ -381,9 +381,89 @@ def oracle_altloc_order(case):
     return out
 
 
+def oracle_disorder_copies(case):
+    """chosen residues are deposited three times over - the residue itself and two copies 0.35 A and 0.7 A away under
+    other chain ids, occupancies 0.5 / 0.3 / 0.2 (separately keyed atoms closer than 0.5 A in a chain a-b-c: which of
+    them the reader keeps must not depend on how the file lists its atoms) - and the same records are written with the
+    atoms of every residue in file order, reversed, and rotated by three: the annotation must be the same"""
+    from rnapolis.parser import read_3d_structure
+
+    fn = case["file"]
+    atoms = table_from_structure(corpus.structure(fn))
+    info = case.setdefault("_info", {})
+    if atoms is None:
+        info["skipped"] = True
+        return []
+    keys = []
+    for a in atoms:
+        k = (a["chain"], a["resseq"], a["icode"])
+        if k not in keys:
+            keys.append(k)
+    chosen = {keys[i % len(keys)] for i in case["residues"]}
+    used = {a["chain"] for a in atoms}
+    spare = [c for c in "yzwvut" if c not in used]
+    if len(spare) < 2:
+        info["skipped"] = True
+        return []
+    dx, dy, dz = case["direction"]
+    blocks, extra = [], []
+    i = 0
+    while i < len(atoms):
+        k = (atoms[i]["chain"], atoms[i]["resseq"], atoms[i]["icode"])
+        j = i
+        while j < len(atoms) and (atoms[j]["chain"], atoms[j]["resseq"], atoms[j]["icode"]) == k:
+            j += 1
+        block = [dict(a) for a in atoms[i:j]]
+        if k in chosen:
+            for a in block:
+                a["occ"] = 0.5
+            for n_, (ch, occ) in enumerate(zip(spare[:2], (0.3, 0.2)), start=1):
+                extra.append([dict(a, chain=ch, occ=occ, x=round(a["x"] + 0.35 * n_ * dx, 3), y=round(a["y"] + 0.35 * n_ * dy, 3),
+                                   z=round(a["z"] + 0.35 * n_ * dz, 3)) for a in block])
+        blocks.append(block)
+        i = j
+    blocks += extra
+    results = {}
+    os.makedirs(WORK_DIR, exist_ok=True)
+    for order in ("as-listed", "reversed", "rotated"):
+        rows = []
+        for block in blocks:
+            b = list(block)
+            if order == "reversed":
+                b = b[::-1]
+            elif order == "rotated":
+                b = b[3 % len(b):] + b[:3 % len(b)]
+            rows += [dict(a) for a in b]
+        for n_, a in enumerate(rows):
+            a["serial"] = n_ + 1
+        if len(rows) > 99999:
+            info["skipped"] = True
+            return []
+        ext = case.get("ext", "pdb")
+        p = os.path.join(WORK_DIR, f"c05_{os.getpid()}_dis.{ext}")
+        with open(p, "w") as f:
+            f.write(atomtab.emit_pdb(rows) if ext == "pdb" else atomtab.emit_cif(rows, "?"))
+        try:
+            with open(p) as f:
+                s3 = read_3d_structure(f, None)
+        finally:
+            os.remove(p)
+        results[order] = normalise(annotate(s3, case.get("find_gaps", False)))
+    b0 = results["as-listed"]
+    info["nt"] = bool(b0["basePairs"]) and bool(b0["stackings"])
+    info["disorder"] = True
+    out = []
+    for order in ("reversed", "rotated"):
+        for k, what in diff(results["as-listed"], results[order]):
+            out.append(D(f"C05:{k}:depends-on-atom-order-in-file", f"{fn} ({case.get('ext', 'pdb')}): three-fold disordered residues, atoms as listed vs {order}: {what}"))
+    return out
+
+
 def oracle(case):
     if case["kind"] == "altloc-order":
         return oracle_altloc_order(case)
+    if case["kind"] == "disorder-copies":
+        return oracle_disorder_copies(case)
     if case["kind"] == "formats":
         return oracle_formats(case)
     return oracle_transform(case)
@@ -416,6 +496,8 @@ def classify(case):
             labs.append("formats-after-rigid-motion")
         if info.get("altloc"):
             labs.append("atom-order-in-file-with-alternate-locations")
+        if info.get("disorder"):
+            labs.append("atom-order-in-file-with-three-fold-disordered-residues")
         if info.get("wide-coordinates"):
             labs.append("coordinate<=-100-or>=1000")
         if info.get("negative-numbers"):
@@ -480,12 +562,14 @@ def plan(tier, seed):
         specs += [{"kind": "formats", "files": [f]} for f in files]
         specs += [{"kind": "formats-moved", "files": corpus.SMALL, "examples": 12, "seed": seed * 1000 + 500 + k} for k in range(8)]
         specs += [{"kind": "altloc-order", "files": corpus.SMALL[:8], "examples": 10, "seed": seed * 1000 + 600 + k} for k in range(4)]
+        specs += [{"kind": "disorder-copies", "files": corpus.SMALL[:8], "examples": 10, "seed": seed * 1000 + 650 + k} for k in range(4)]
     else:
         files = corpus.SMALL + corpus.MEDIUM + ["4qln.cif", "6g90_1.cif"]
         specs = [{"kind": "transform", "files": files, "examples": 150, "seed": seed * 1000 + k} for k in range(48)]
         specs += [{"kind": "formats", "files": [f]} for f in corpus.all_files()]
         specs += [{"kind": "formats-moved", "files": corpus.SMALL + corpus.MEDIUM, "examples": 150, "seed": seed * 1000 + 500 + k} for k in range(16)]
         specs += [{"kind": "altloc-order", "files": corpus.SMALL + corpus.MEDIUM, "examples": 80, "seed": seed * 1000 + 600 + k} for k in range(16)]
+        specs += [{"kind": "disorder-copies", "files": corpus.SMALL + corpus.MEDIUM, "examples": 60, "seed": seed * 1000 + 650 + k} for k in range(8)]
     return specs
 
 
@@ -496,6 +580,15 @@ def run_shard(spec) -> ShardResult:
     files = [f for f in spec["files"] if f in corpus.all_files()]
     if spec["kind"] == "altloc-order":
         run_hypothesis(PROP_ID, st_altloc(files), oracle, seed=spec["seed"], max_examples=spec["examples"], result=res,
+                       to_json=to_json, classify=classify, shrink=False)
+    elif spec["kind"] == "disorder-copies":
+        from hypothesis import strategies as st
+
+        strat = st.fixed_dictionaries({"kind": st.just("disorder-copies"), "file": st.sampled_from(files), "ext": st.sampled_from(["pdb", "cif"]),
+                                       "residues": st.lists(st.integers(0, 500), min_size=1, max_size=3),
+                                       "direction": st.sampled_from([[1.0, 0.0, 0.0], [0.0, 1.0, 0.0], [0.6, 0.8, 0.0], [0.0, 0.6, 0.8]]),
+                                       "find_gaps": st.booleans()})
+        run_hypothesis(PROP_ID, strat, oracle, seed=spec["seed"], max_examples=spec["examples"], result=res,
                        to_json=to_json, classify=classify, shrink=False)
     elif spec["kind"] == "formats-moved":
         run_hypothesis(PROP_ID, st_formats(files), oracle, seed=spec["seed"], max_examples=spec["examples"], result=res,
